@@ -249,6 +249,9 @@ class RealA:
                 self.cur.update(self.staged)
                 self.txn, self.staged = None, {}
             return 'ok', op
+        if c == 'mark':
+            self.mark = self.k                    # a pack time: just after the newest transaction so far
+            return 'ok', 'begin'
         if c == 'pack':
             if self.txn is not None:
                 s.tpc_abort(self.txn)
@@ -257,7 +260,11 @@ class RealA:
             else:
                 pre = []
             try:
-                s.pack(time.time(), referencesf)
+                if t[1:] == ['mark'] and getattr(self, 'mark', 0):
+                    # to a time in the middle of the history: what follows is copied record by record
+                    s.pack(TimeStamp(tid_of(self.mark)).timeTime() + 1, referencesf)
+                else:
+                    s.pack(time.time(), referencesf)
             except Exception as e:
                 return 'err:Other(%s)' % type(e).__name__, '\n'.join(pre + ['begin'])
             keep = sorted({u64(r.oid) for tx in s.iterator() for r in tx})
@@ -498,6 +505,17 @@ def gen_a(rng, kind):
             ops.append('newoid')
         else:
             ops.append('newoid')
+    if kind == 'file' and rng.random() < 0.2:
+        # an object with the largest oid is created after the pack time and its creation undone; the pack (to
+        # the mark, freeing an old revision) copies the un-creation record; a later commit, close, reopen with
+        # the SAVED (or a stale / no) index: the counter must still cover that oid
+        finish()
+        a = rng.randrange(700, 900)
+        hi = max(known + [a]) + rng.choice([1, 5, 300])
+        if hi <= TOP:
+            ops += ['store %s' % hex8(a), 'finish', 'storeroot %s' % hex8(a), 'finish', 'store %s' % hex8(a), 'finish',
+                    'mark', 'store %s' % hex8(hi), 'finish', 'undolast', 'finish', 'pack mark',
+                    'store %s' % hex8(a), 'finish', 'reopen' + rng.choice(['', '', ' stale', ' noindex']), 'newoid']
     ops += ['newoid', 'newoid']
     return ops
 
@@ -791,6 +809,18 @@ def run_conn_case(rng, tmp, idx):
     file_like = kind in ('file', 'blobfile', 'hexfile', 'cfgfile')
     blobs = kind in ('blobfile', 'cfgfile', 'demo-temp', 'demo-push')
     exported = [None]
+    # an export file from ANOTHER database: its oids overlap with those of exports made here
+    import io
+    fdb = ZODB.DB(MappingStorage())
+    ftm = transaction.TransactionManager()
+    fconn = fdb.open(ftm)
+    fconn.root()['t'] = MinPO(MinPO('foreign'))
+    ftm.commit()
+    fbuf = io.BytesIO()
+    fconn.exportFile(fconn.root()['t']._p_oid, fbuf)
+    foreign = fbuf.getvalue()
+    fconn.close()
+    fdb.close()
     try:
         st = make()
         lg = LoggedNewOid(st)
@@ -834,6 +864,37 @@ def run_conn_case(rng, tmp, idx):
                 elif r < 0.26:
                     conn.new_oid()                      # an id taken directly (never stored)
                     steps.append('new_oid')
+                elif r < 0.30:
+                    # two imports in ONE transaction, the second from another database (overlapping exported oids)
+                    commit1()
+                    check('commit')
+                    present = present_oids(st)
+                    local = MinPO(MinPO('local-%d' % n))
+                    root['exp'] = local
+                    commit1()
+                    check('commit')
+                    present = present_oids(st)
+                    if local._p_oid is not None:
+                        lb = io.BytesIO()
+                        conn.exportFile(local._p_oid, lb)
+                        a = conn.importFile(io.BytesIO(lb.getvalue()))
+                        b = conn.importFile(io.BytesIO(foreign))
+                        root['impA'], root['impB'] = a, b
+                        check('double-import')
+                        commit1()
+                        check('commit')
+                        present = present_oids(st)
+                        conn.cacheMinimize()
+                        ra, rb = root.get('impA'), root.get('impB')
+                        if ra is not None and rb is not None:
+                            ids = [ra._p_oid, ra.value._p_oid, rb._p_oid, rb.value._p_oid]
+                            if len(set(ids)) != 4:
+                                bad = bad or ('%s: two imports in one transaction (exports of two databases with '
+                                              'overlapping oids) gave their objects the same ids %s' % (
+                                                  kind, [u64(x) for x in ids]))
+                            elif ra.value.value != 'local-%d' % n or rb.value.value != 'foreign':
+                                bad = bad or '%s: an imported tree reads back as the other one' % kind
+                    steps.append('double-import')
                 elif r < 0.32:
                     # the other connection adds and commits in between
                     tm2.begin()
@@ -1236,6 +1297,20 @@ def probe_mvccmapping_instance_store():
     return None
 
 
+def probe_mvccmapping_instances_disjoint():
+    """MVCCMappingStorage: the instances handed to concurrently open connections allocate from ONE sequence"""
+    from ZODB.tests.MVCCMappingStorage import MVCCMappingStorage
+    main = MVCCMappingStorage()
+    i1, i2 = main.new_instance(), main.new_instance()
+    got = [u64(x.new_oid()) for x in (i1, i2, i1, main, i2, i1)]
+    i3 = main.new_instance()
+    got += [u64(i3.new_oid()), u64(i2.new_oid())]
+    if len(set(got)) != len(got):
+        return ('MVCCMappingStorage: ids allocated through the main storage and three of its instances '
+                '(new_instance()) are not disjoint: %s' % got)
+    return None
+
+
 def probe_finish_window(tmp):
     """directed: while client A's tpc_finish is on its way into the changes storage, client B calls new_oid()
     and its re-draw proposes the id A is just committing.  It must be either still issued or already stored."""
@@ -1482,6 +1557,11 @@ def main(argv=None):
             # reported to the coordinator; counted as a violation once it is recorded (open: KNOWN-FINDING,
             # fixed: regression) -- until then an evidence note only
             ck.violation(sig, bad, dict(section='D-probes', probe='mvccmapping'))
+        bad = probe_mvccmapping_instances_disjoint()
+        ck.count('probe:mvccmapping-instances-disjoint')
+        ck.case(['probe-mvcc-disjoint'], True, None)
+        if bad:
+            ck.violation('C20:mvccmapping-instances-not-disjoint', bad, dict(section='D-probes', probe='mvcc-disjoint'))
         bad = probe_finish_window(ck.tmp)
         ck.count('D:finish-window-probe')
         ck.case(['D-finish-window'], True, None)
